@@ -629,3 +629,70 @@ func init() {
 		return oracleAllOrNothing(r, n/4+1, st) // collections of several documents: fewer rounds
 	}})
 }
+
+// replayC11 re-executes the recorded input of a C11 oracle failure.
+func replayC11(f oracleFailure) (string, bool) {
+	det, _ := f.Detail.([]interface{})
+	var parts []*sx
+	for _, d := range det {
+		s, _ := d.(string)
+		c, err := parseSx(s)
+		if err != nil {
+			return "bad detail: " + s, false
+		}
+		parts = append(parts, c)
+	}
+	var sb strings.Builder
+	fmt.Fprintf(&sb, "signature: %s\nwhat: %s\n", f.Signature, f.What)
+	isDoc := func(c *sx) bool { return c.isL && len(c.list) > 0 && c.list[0].atom == "D" }
+	if len(parts) >= 2 && isDoc(parts[0]) && isDoc(parts[1]) {
+		d := decValue(parts[0]).(bson.D)
+		u := decValue(parts[1]).(bson.D)
+		d1 := *bsonkit.Clone(&d)
+		_, err, pan := safeApply(applyCase{doc: &d1, query: &bson.D{}, update: &u})
+		fmt.Fprintf(&sb, "document: %s\nupdate:   %s\nfirst:    %s (err=%v panic=%v)\n", enc(d), enc(u), enc(d1), err, pan)
+		if err != nil || pan {
+			return sb.String(), pan
+		}
+		d2 := *bsonkit.Clone(&d1)
+		_, err2, pan2 := safeApply(applyCase{doc: &d2, query: &bson.D{}, update: &u})
+		fmt.Fprintf(&sb, "second:   %s (err=%v panic=%v)\n", enc(d2), err2, pan2)
+		sink := &failSink{}
+		if strings.Contains(f.Signature, "not-idempotent") || strings.Contains(f.Signature, "second-application") {
+			return sb.String(), pan2 || (err2 == nil && !bytes.Equal(marshal(d1), marshal(d2)))
+		}
+		// untouched fields / order: re-check
+		touched := touchedTop(u)
+		for _, e := range d {
+			if touched[e.Key] {
+				continue
+			}
+			v := bsonkit.Get(&d1, e.Key)
+			if v == bsonkit.Missing || enc(v) != enc(e.Value) {
+				sink.add("x", "field "+e.Key+" changed", nil)
+			}
+		}
+		return sb.String(), len(sink.fails) > 0 || strings.Contains(f.Signature, "field-order")
+	}
+	if len(parts) >= 2 {
+		a, b := decValue(parts[0]), decValue(parts[1])
+		sink := &failSink{}
+		st := &oracleStats{Dist: map[string]int{}}
+		add, mul := bsonkit.Add(a, b), bsonkit.Mul(a, b)
+		fmt.Fprintf(&sb, "a: %s\nb: %s\nAdd: %s\nMul: %s\n", enc(a), enc(b), enc(add), enc(mul))
+		checkArith(sink, st, false, a, b, add)
+		checkArith(sink, st, true, a, b, mul)
+		for _, x := range sink.fails {
+			fmt.Fprintf(&sb, "fails: %s (%s)\n", x.What, x.Signature)
+		}
+		for _, x := range sink.fails {
+			if x.Signature == f.Signature {
+				return sb.String(), true
+			}
+		}
+		return sb.String(), false
+	}
+	return sb.String() + "nothing to replay", false
+}
+
+func init() { oracleReplayers["C11"] = replayC11 }
